@@ -52,6 +52,7 @@ type Op struct {
 	NoCID  bool       `json:"no_client_id,omitempty"`
 	Age    bool       `json:"age,omitempty"`                // not a message: all leases run out (time passes)
 	Long   bool       `json:"long,omitempty"`               // age: two days instead of an hour
+	Dur    string     `json:"elapsed,omitempty"`            // age: exactly this much time passes (sweeps)
 	XCode  int        `json:"extra_option,omitempty"`       // one more top-level option (code) ...
 	XData  string     `json:"extra_option_data,omitempty"`  // ... with this payload (hex)
 	XFirst bool       `json:"extra_option_first,omitempty"` // placed before the IA_PDs instead of after
@@ -314,6 +315,8 @@ func (s *Sys) Ops() []Op {
 			ops = append(ops, Op{Client: c, Msg: 5, Relay: 1, Link: 2, IAPDs: [][]string{{"own1"}}})
 			ops = append(ops, Op{Client: c, Msg: 3, Relay: 2, Link: 1, IAPDs: [][]string{{}}})
 		}
+		ops = append(ops, Op{Client: c, Msg: 4, IAPDs: [][]string{{}}})     // Confirm
+		ops = append(ops, Op{Client: c, Msg: 11, IAPDs: [][]string{{}}})    // Information-Request
 		ops = append(ops, Op{Client: c, Msg: 1, IAPDs: [][]string{}})       // no IA_PD at all
 		ops = append(ops, Op{Client: c, Msg: 1, IAPDs: [][]string{{}, {}}}) // two IA_PDs
 		ops = append(ops, Op{Client: c, Msg: 1, IAPDs: [][]string{{"free1"}, {"len-page"}, {}}})
@@ -351,7 +354,7 @@ func (s *Sys) Ops() []Op {
 }
 
 func (s *Sys) concretize(o Op) Op {
-	n := Op{Client: o.Client, Msg: o.Msg, Relay: o.Relay, NoCID: o.NoCID, Age: o.Age, Long: o.Long, Timers: o.Timers, Link: o.Link, XCode: o.XCode, XData: o.XData, XFirst: o.XFirst, IAPDs: [][]string{}}
+	n := Op{Client: o.Client, Msg: o.Msg, Relay: o.Relay, NoCID: o.NoCID, Age: o.Age, Long: o.Long, Dur: o.Dur, Timers: o.Timers, Link: o.Link, XCode: o.XCode, XData: o.XData, XFirst: o.XFirst, IAPDs: [][]string{}}
 	for _, hs := range o.IAPDs {
 		c := []string{}
 		for _, h := range hs {
@@ -513,6 +516,12 @@ func (s *Sys) Apply(op Op, live bool) (obs string) {
 		if op.Long {
 			d = 49 * time.Hour
 		}
+		if op.Dur != "" {
+			var err error
+			if d, err = time.ParseDuration(op.Dur); err != nil {
+				panic(err)
+			}
+		}
 		s.hd.VerifAge(d)
 		for c, ts := range s.ghost {
 			s.aged[c] = true
@@ -623,7 +632,9 @@ func (s *Sys) Apply(op Op, live bool) (obs string) {
 	// A Release may legitimately be answered without re-delegating anything (and a server that
 	// implements it gives the block back): for it only the safety clauses stay in force, and
 	// what the reply does not delegate again is no longer counted as held by the client.
-	isRelease := op.Msg == 8
+	// (The same caution applies to Confirm and Information-Request, which by RFC 8415 do not
+	// delegate anything.)
+	isRelease := op.Msg == 8 || op.Msg == 4 || op.Msg == 11
 	if live && !isRelease {
 		var wantIDs, gotIDs []int
 		for i := range op.IAPDs {
@@ -873,6 +884,7 @@ func run(r *ev.Run, id string) {
 		r.Sample("graph", map[string]interface{}{"pool": p, "clients": nc, "states": res.States, "transitions": res.Transitions, "depth": res.Depth, "fixpoint": res.Fixpoint, "merge_checks": res.MergeChecks})
 	}
 	manyLeases(r, id)
+	gaps(r, id)
 	spelledPools(r, id)
 	irrelevantOptions(r, id)
 	if id == "C08" {
@@ -939,6 +951,26 @@ func spelledPools(r *ev.Run, id string) {
 			}
 		}
 		r.Add("spelled_pool_histories", 1)
+	}
+}
+
+// gaps: the time between the messages of one client, from a second to beyond the lifetime:
+// renewals and repeats return the same prefix with a lifetime not shorter than what remained,
+// and every lifetime stays within (0, 3600].
+func gaps(r *ev.Run, id string) {
+	for _, gap := range []string{"1s", "10s", "1m", "29m", "30m", "31m", "59m", "59m59s", "60m1s", "61m", "2h", "25h"} {
+		for _, second := range []Op{{Client: "A", Msg: 5, IAPDs: [][]string{{"own1"}}}, {Client: "A", Msg: 3, IAPDs: [][]string{{}}}, {Client: "A", Msg: 1, IAPDs: [][]string{{"len0"}}}} {
+			s := NewSys(r, id, Pool{"2001:db8:0:10::/62", 64}, 2, false)
+			hist := []Op{{Client: "A", Msg: 1, IAPDs: [][]string{{}}}, {Client: "B", Msg: 1, IAPDs: [][]string{{}}}, {Client: "-", Age: true, Dur: gap, IAPDs: [][]string{}}, second,
+				{Client: "-", Age: true, Dur: gap, IAPDs: [][]string{}}, second, {Client: "B", Msg: 5, IAPDs: [][]string{{"own1"}, {}}}, {Client: "A", Msg: 1, IAPDs: [][]string{{"free1"}}}}
+			for _, op := range hist {
+				s.Apply(s.concretize(op), true)
+				if s.Terminal() {
+					break
+				}
+			}
+			r.Add("gap_histories", 1)
+		}
 	}
 }
 
